@@ -617,6 +617,66 @@ func runC20(c *Ctx, r *Report) {
 		})
 	})
 	if !found {
+		// the literal lives in a helper: the same agreement on SSA — what is stored in the published fields derives
+		// (helper parameters replaced by the arguments of the call) from the very values that were signed
+		sci := p.SSAFunc(ci)
+		var sign ssa.CallInstruction
+		var aV, bV ssa.Value
+		allInstrs(sci, false, func(ins ssa.Instruction) {
+			call, ok := ins.(*ssa.Call)
+			if !ok || !call.Call.IsInvoke() || call.Call.Method.Name() != "SignIdentity" || len(call.Call.Args) < 2 {
+				return
+			}
+			if app, ok := call.Call.Args[1].(*ssa.Call); ok {
+				if b, isB := app.Call.Value.(*ssa.Builtin); isB && b.Name() == "append" && len(app.Call.Args) == 2 {
+					sign, aV, bV = call, app.Call.Args[0], app.Call.Args[1]
+				}
+			}
+		})
+		idSigT := p.Named("identityprovider", "IdentitySignature")
+		got := map[string]bool{}
+		if sign != nil {
+			fns := []*ssa.Function{sci}
+			allInstrs(sci, false, func(ins ssa.Instruction) {
+				if call, ok := ins.(*ssa.Call); ok {
+					if cal := call.Call.StaticCallee(); cal != nil && cal.Blocks != nil && p.firstParty(calleePkg(cal)) {
+						fns = append(fns, cal)
+					}
+				}
+			})
+			for _, f := range fns {
+				allInstrs(f, false, func(ins ssa.Instruction) {
+					st, ok := ins.(*ssa.Store)
+					if !ok {
+						return
+					}
+					fv, fa := fieldOf(st.Addr)
+					if fv == nil {
+						return
+					}
+					sl := sliceWithArgs(st.Val, sci, false)
+					owner := namedOf(fa.X.Type())
+					switch {
+					case owner == idT && fv.Name() == "PublicKey":
+						got["publicKey"] = sl[aV]
+					case owner == idSigT && fv.Name() == "ID":
+						got["idSignature"] = sl[bV]
+					case owner == idSigT && fv.Name() == "PublicKey":
+						got["pubKeySignature"] = sl[sign.(*ssa.Call)]
+					}
+				})
+			}
+		}
+		if sign == nil || len(got) < 3 {
+			r.Undecided("R-C20.4", key, ci.Body.Pos(), "neither an Identity literal in CreateIdentity nor stores of the published fields in its helpers were found")
+		} else {
+			r.Check(got["publicKey"] && got["idSignature"] && got["pubKeySignature"], "R-C20.4", key, sign.Pos(),
+				"the identity (built in a helper) publishes exactly the public key and id signature that were signed, and the signature SignIdentity returned",
+				fmt.Sprintf("published identity and signed bytes disagree: publicKey-matches=%v idSignature-matches=%v pubKeySignature-is-result=%v — the public-key signature then does not verify", got["publicKey"], got["idSignature"], got["pubKeySignature"]))
+		}
+		return
+	}
+	if false {
 		r.Undecided("R-C20.4", key, ci.Body.Pos(), "no Identity literal found in CreateIdentity")
 	}
 }
